@@ -11,10 +11,8 @@ PROPS=("$@")
 if [ ${#PROPS[@]} -eq 0 ]; then
   PROPS=(C01 C02 C03 C04 C05 C06 C07 C08 C09 C10 C11 C12 C13 C14 C15 C16 C17 C18 C19 C20)
 fi
-# one fixed scratch location so the alternate target directory stays warm (path is part of cargo's fingerprint)
-S=/tmp/rtcp-matrix
-exec 9>/tmp/rtcp-matrix.lock; flock 9
-rm -rf "$S"; mkdir -p "$S/repo" "$S/out"
+S="$(mktemp -d /tmp/rtcp-matrix.XXXXXX)"
+mkdir -p "$S/repo" "$S/out"
 cleanup() { rm -rf "$S"; }
 trap cleanup EXIT
 (cd /repo && git ls-files -z | xargs -0 cp --parents -t "$S/repo")
